@@ -230,6 +230,8 @@ fn on_fields(fields: &Fields, has_self: bool, encoding: Encoding) -> syn::Result
             steps.push(quote! {
                 let mut __num777 = 0;
                 let mut __len777 = 0;
+                // tags of nil fields since the last non-nil one (written as `tag null`)
+                let mut __pend777 = 0;
             });
             for field in fields.fields() {
                 if field.attrs.skip() {
@@ -246,24 +248,33 @@ fn on_fields(fields: &Fields, has_self: bool, encoding: Encoding) -> syn::Result
                     if field.is_name {
                         steps.push(quote! {
                             if !#is_nil(&self.#ident) {
-                                __len777 += (#n - __num777) + #tag + #cbor_len(&self.#ident, __ctx777);
-                                __num777 = #n + 1
+                                __len777 += (#n - __num777) + __pend777 + #tag + #cbor_len(&self.#ident, __ctx777);
+                                __num777 = #n + 1;
+                                __pend777 = 0
+                            } else {
+                                __pend777 += #tag
                             }
                         })
                     } else {
                         let i = syn::Index::from(field.pos);
                         steps.push(quote! {
                             if !#is_nil(&self.#i) {
-                                __len777 += (#n - __num777) + #tag + #cbor_len(&self.#i, __ctx777);
-                                __num777 = #n + 1
+                                __len777 += (#n - __num777) + __pend777 + #tag + #cbor_len(&self.#i, __ctx777);
+                                __num777 = #n + 1;
+                                __pend777 = 0
+                            } else {
+                                __pend777 += #tag
                             }
                         })
                     }
                 } else {
                     steps.push(quote! {
                         if !#is_nil(&#ident) {
-                            __len777 += (#n - __num777) + #tag + #cbor_len(&#ident, __ctx777);
-                            __num777 = #n + 1
+                            __len777 += (#n - __num777) + __pend777 + #tag + #cbor_len(&#ident, __ctx777);
+                            __num777 = #n + 1;
+                            __pend777 = 0
+                        } else {
+                            __pend777 += #tag
                         }
                     })
                 }
